@@ -259,6 +259,10 @@ def handle(acc: Acc, out: Out, case, known, found=()):
     return new
 
 
+MAX_VIOL_PER_SHARD = int(os.environ.get("VP_MAX_VIOL_PER_SHARD", "3"))
+SHRINK_BUDGET_S = float(os.environ.get("VP_SHRINK_BUDGET_S", "8"))
+
+
 def hyp_search(acc: Acc, strategy, check, *, seed, max_examples, known, rounds=3, shrink=True):
     """Drive `check` (case -> Out) with Hypothesis.  Violations whose key is a
     known finding are tallied and the case passes; the first unlisted key fails
@@ -269,6 +273,11 @@ def hyp_search(acc: Acc, strategy, check, *, seed, max_examples, known, rounds=3
 
     found = set()
     for rnd in range(rounds):
+        if len(acc.violations) >= MAX_VIOL_PER_SHARD:
+            # a tree that already produced several distinct violations in this
+            # shard is broken; do not spend the budget enumerating more
+            acc.skipped["search-skipped-after-violations"] += 1
+            return found
         holder = {}
         phases = [Phase.generate, Phase.target]
         if shrink:
@@ -289,6 +298,11 @@ def hyp_search(acc: Acc, strategy, check, *, seed, max_examples, known, rounds=3
         )
         @given(strategy)
         def _t(case):
+            if "t0" in holder and time.monotonic() - holder["t0"] > SHRINK_BUDGET_S:
+                # shrink budget used up: only the best failing example found so
+                # far is still evaluated (Hypothesis replays it at the end)
+                if digest(jenc(case)) != holder["dig"]:
+                    return
             out = check(case)
             acc.record(out)
             new = []
@@ -299,6 +313,8 @@ def hyp_search(acc: Acc, strategy, check, *, seed, max_examples, known, rounds=3
                     new.append((k, d))
             if new:
                 holder["last"] = (case, new)
+                holder["dig"] = digest(jenc(case))
+                holder.setdefault("t0", time.monotonic())
                 raise _Violated(new[0][0])
 
         try:
